@@ -1,0 +1,183 @@
+//! Verification hooks. This module only exists when the crate is compiled with
+//! `--cfg mini_moka_verif`; nothing in it is part of the public API of the shipped
+//! crate.
+//!
+//! A deterministic simulator installs a [`Hooks`] object on each of its threads. While
+//! no object is installed on the calling thread every free function below is a no-op,
+//! so a guard-on build still behaves exactly like the shipped crate.
+
+use std::{cell::RefCell, sync::Arc, time::Duration};
+
+use crate::common::time::clock::Mock;
+
+/// Number of shards given to the DashMap of a `sync::Cache` under the guard, so that
+/// a recorded simulation means the same thing on every machine.
+pub const SHARD_AMOUNT: usize = 4;
+
+/// Callbacks a simulator provides. All methods are called on the thread that reached
+/// the hook.
+pub trait Hooks: Send + Sync {
+    /// A switch point: the scheduler may run other threads before returning.
+    fn sp(&self, site: &'static str);
+    /// The calling thread is about to acquire the named lock (blocking).
+    fn lock_enter(&self, lock: &'static str);
+    /// The calling thread has released the named lock.
+    fn lock_exit(&self, lock: &'static str);
+    /// The calling thread is about to perform a map operation that blocks while
+    /// `is_locked()` returns true.
+    fn map_probe(&self, is_locked: &dyn Fn() -> bool);
+    /// A cooperative fault point: return true to force the rare-but-legal outcome.
+    fn buggify(&self, site: &'static str) -> bool;
+    /// A reachability / cause marker. `arg` is site specific (usually a key hash).
+    fn probe(&self, id: &'static str, arg: u64);
+}
+
+thread_local! {
+    static HOOKS: RefCell<Option<Arc<dyn Hooks>>> = const { RefCell::new(None) };
+}
+
+/// Installs (or removes) the hooks object of the calling thread.
+pub fn install(hooks: Option<Arc<dyn Hooks>>) {
+    HOOKS.with(|h| *h.borrow_mut() = hooks);
+}
+
+#[inline]
+fn current() -> Option<Arc<dyn Hooks>> {
+    HOOKS.try_with(|h| h.borrow().clone()).ok().flatten()
+}
+
+#[inline]
+pub(crate) fn sp(site: &'static str) {
+    if let Some(h) = current() {
+        h.sp(site);
+    }
+}
+
+#[inline]
+pub(crate) fn map_probe(is_locked: &dyn Fn() -> bool) {
+    if let Some(h) = current() {
+        h.map_probe(is_locked);
+    }
+}
+
+#[inline]
+pub(crate) fn buggify(site: &'static str) -> bool {
+    match current() {
+        Some(h) => h.buggify(site),
+        None => false,
+    }
+}
+
+#[inline]
+pub(crate) fn probe(id: &'static str, arg: u64) {
+    if let Some(h) = current() {
+        h.probe(id, arg);
+    }
+}
+
+/// True when a simulator is installed on the calling thread.
+#[inline]
+pub(crate) fn active() -> bool {
+    current().is_some()
+}
+
+/// Marks the scope in which the calling thread owns a modelled lock. Declare it
+/// *before* the real guard so that it is dropped after the real guard.
+pub(crate) struct LockScope {
+    lock: &'static str,
+    hooks: Option<Arc<dyn Hooks>>,
+}
+
+pub(crate) fn lock_scope(lock: &'static str) -> LockScope {
+    let hooks = current();
+    if let Some(h) = &hooks {
+        h.lock_enter(lock);
+    }
+    LockScope { lock, hooks }
+}
+
+impl Drop for LockScope {
+    fn drop(&mut self) {
+        if let Some(h) = &self.hooks {
+            h.lock_exit(self.lock);
+        }
+    }
+}
+
+/// A handle to a mock expiration clock that a simulator owns. It is the only clock a
+/// cache reads once it has been given to `verif_set_clock`.
+#[derive(Clone)]
+pub struct VerifClock {
+    pub(crate) mock: Arc<Mock>,
+}
+
+impl Default for VerifClock {
+    fn default() -> Self {
+        Self::new()
+    }
+}
+
+impl VerifClock {
+    pub fn new() -> Self {
+        Self {
+            mock: Arc::new(Mock::default()),
+        }
+    }
+
+    /// Moves the clock forward.
+    pub fn advance(&self, amount: Duration) {
+        self.mock.verif_increment(amount);
+    }
+
+    /// The current reading.
+    pub fn now(&self) -> std::time::Instant {
+        self.mock.verif_now()
+    }
+}
+
+/// One physical entry of a cache, as reported by `verif_snapshot`.
+#[derive(Clone, Debug, PartialEq, Eq)]
+pub struct SnapEntry {
+    pub key: u64,
+    pub value: u64,
+    /// The weight the eviction policy currently associates with the entry.
+    pub weight: u32,
+    pub admitted: bool,
+    pub dirty: bool,
+    /// Nanoseconds since the `base` given to `verif_snapshot`.
+    pub last_accessed: Option<u64>,
+    pub last_modified: Option<u64>,
+    pub has_ao_node: bool,
+    pub has_wo_node: bool,
+    /// Identity of the entry's bookkeeping record (address), 0 if there is none.
+    pub info: usize,
+}
+
+/// One deque node, as reported by `verif_snapshot`.
+#[derive(Clone, Debug, PartialEq, Eq)]
+pub struct SnapNode {
+    pub key: u64,
+    pub info: usize,
+}
+
+/// A read-only picture of what a cache physically holds.
+#[derive(Clone, Debug, Default, PartialEq, Eq)]
+pub struct Snapshot {
+    pub entry_count: u64,
+    pub weighted_size: u64,
+    pub entries: Vec<SnapEntry>,
+    /// Access-order (probation) deque, least recently used first.
+    pub probation: Vec<SnapNode>,
+    /// Write-order deque, oldest first.
+    pub write_order: Vec<SnapNode>,
+    pub window_len: usize,
+    pub protected_len: usize,
+    pub read_queue_len: usize,
+    pub write_queue_len: usize,
+    pub sketch_enabled: bool,
+    /// Structural problems found by the walker (empty when well-formed).
+    pub errors: Vec<String>,
+    /// Violations of the strict "deque nodes <-> map entries is a bijection" clause,
+    /// which is only meaningful while no read or write record is queued.
+    pub strict_errors: Vec<String>,
+}
